@@ -93,6 +93,8 @@ type Exec struct {
 	symCache   map[int]map[string]bool
 	specWF     []*Term // well-formedness facts of values loaded inside spec functions (see wfLoaded)
 	deadline   time.Time
+	cpuStart, cpuBudget time.Duration
+	limitTick  int
 }
 
 // Notes accumulate everything assumed or abstracted during a run.
